@@ -181,3 +181,38 @@ def test_82fdbce_aws_client_with_use_pooling_can_be_constructed_and_reconfigured
     c = AWSElastiCacheHashClient("ep.cfg.cache.amazonaws.com:11211", socket_module=m, use_pooling=True, max_pool_size=2)
     c.reconfigure_nodes()
     assert sorted(c.clients) == ["10.0.0.1:11212"] and isinstance(c.clients["10.0.0.1:11212"], _Pooled)
+
+
+def test_69a997e_hash_client_closes_the_client_it_replaces_when_a_server_comes_back(monkeypatch):
+    # C06 (failover histories): h1 refuses at 0 and 2, is back at 5 (the call that evicts it connects), and is
+    # taken back into rotation at 12 with a NEW client - the old client's open socket was never closed
+    import pymemcache.client.hash as H
+
+    class Clock:
+        now = 1000.0
+
+        def time(self):
+            return self.now
+
+    clock = Clock()
+    monkeypatch.setattr(H, "time", clock)
+    m = Module([], [], [b"END\r\n"], [b"END\r\n"])
+    h = HashClient([("h1", 11211)], socket_module=m, retry_attempts=1, retry_timeout=1, dead_timeout=6,
+                   connect_timeout=1, timeout=1)
+    m.refuse = True
+    for t in (0, 2):
+        clock.now = 1000.0 + t
+        try:
+            h.get("k")
+        except OSError:
+            pass
+    m.refuse = False
+    clock.now = 1005.0
+    assert h.get("k") is None  # evicted by this call, which nevertheless reached the recovered server
+    first = m.socks[-1]
+    assert first.closed == 0
+    clock.now = 1012.0
+    assert h.get("k") is None  # back in rotation, on a new client
+    assert m.socks[-1] is not first
+    h.close()
+    assert first.closed >= 1, "the socket of the replaced client is still open after HashClient.close()"
